@@ -9,17 +9,25 @@
 EXTENDS NamesEdit
 CONSTANT MaxLen
 WarmProbes == {3, 4, 9, 11, 12}          \* kpc, kiloparsec, kft, kfoo, Mfoo
-Next == /\ Len(hist) < MaxLen
-        /\ \/ \E k \in {"pc", "ft", "foo"}, pfx \in BOOLEAN : Add(k, "2", pfx) /\ hist' = Append(hist, [op |-> "add", k |-> k, m |-> "2", pfx |-> pfx, p |-> 0])
+\* names handed to define_unit, one per reading class: plain new name (quux, foo), existing table symbol (pc), listed
+\* alias (parsec), prefix + prefixable symbol (kpc: cold in a custom registry, warm in the default one or after Unit),
+\* prefix word + alias (kiloparsec), prefix + non-prefixable symbol (kft), prefix + user symbol (kfoo)
+DefineNames == {"quux", "pc", "parsec", "kpc", "kiloparsec", "kft", "kfoo"}
+CustomNext ==
+           \/ \E k \in {"pc", "ft", "foo"}, pfx \in BOOLEAN : Add(k, "2", pfx) /\ hist' = Append(hist, [op |-> "add", k |-> k, m |-> "2", pfx |-> pfx, p |-> 0])
            \/ Add("kfoo", "7", FALSE) /\ hist' = Append(hist, [op |-> "add", k |-> "kfoo", m |-> "7", pfx |-> FALSE, p |-> 0])
-           \/ \E k \in EditKeys : Remove(k) /\ hist' = Append(hist, [op |-> "remove", k |-> k, m |-> "", pfx |-> FALSE, p |-> 0])
+           \/ \E k \in {"pc", "ft", "foo", "kfoo"} : Remove(k) /\ hist' = Append(hist, [op |-> "remove", k |-> k, m |-> "", pfx |-> FALSE, p |-> 0])
            \/ \E k \in {"pc", "ft", "foo"} : Modify(k, "4") /\ hist' = Append(hist, [op |-> "modify", k |-> k, m |-> "4", pfx |-> FALSE, p |-> 0])
-           \/ \E p \in WarmProbes : Construct(p) /\ hist' = Append(hist, [op |-> "unit", k |-> "", m |-> "", pfx |-> FALSE, p |-> p])
            \/ AddSymbols /\ hist' = Append(hist, [op |-> "addsymbols", k |-> "", m |-> "", pfx |-> FALSE, p |-> 0])
+Next == /\ Len(hist) < MaxLen
+        /\ \/ \E sym \in DefineNames : Define(sym, "7", FALSE) /\ hist' = Append(hist, [op |-> "define", k |-> sym, m |-> "7", pfx |-> FALSE, p |-> 0])
+           \/ \E pfx \in BOOLEAN : Define("foo", "2", pfx) /\ hist' = Append(hist, [op |-> "define", k |-> "foo", m |-> "2", pfx |-> pfx, p |-> 0])
+           \/ \E p \in WarmProbes : Construct(p) /\ hist' = Append(hist, [op |-> "unit", k |-> "", m |-> "", pfx |-> FALSE, p |-> p])
+           \/ kind = "custom" /\ CustomNext
 Spec == EditInit /\ [][Next]_evars
 \* model level: probes whose resolution on the transcription differs from the reading under the caller's view
-ModelStale == {p \in PIdx : PeekStr(p, lut, memo)[1] # RefDen(user, p)}
-ModelStaleNs == LET r == NsOf(lut) IN IF r.ok THEN {p \in PIdx : r.ns[p].k = "unit" /\ r.ns[p] # RefDen(user, p)} ELSE {}
-Export == PrintT(ToJson([tag |-> "HIST", h |-> hist,
+ModelStale == {p \in PIdx : PeekStr(p, lut, MemoRead)[1] \notin RefDens(user, p)}
+ModelStaleNs == LET r == NsOf(lut) IN IF r.ok /\ kind = "custom" THEN {p \in PIdx : r.ns[p].k = "unit" /\ r.ns[p] \notin RefDens(user, p)} ELSE {}
+Export == PrintT(ToJson([tag |-> "HIST", kind |-> kind, h |-> hist,
                          stale |-> {[s |-> ProbeSeq[p].s, layer |-> Layer(user, p, ModelRows(lut))] : p \in ModelStale \cup ModelStaleNs}]))
 =============================================================================
